@@ -154,6 +154,11 @@ fn ser_named_type(ty: &OwnedDataModelType, value: &Value, out: &mut Vec<u8>) -> 
         OwnedDataModelType::F32 => {
             let val = value.as_f64().right()?;
             let val = val as f32; // todo
+            // a JSON number is finite; if it does not fit an f32 it would become an
+            // infinity, which the decoder cannot turn back into a JSON number
+            if !val.is_finite() {
+                return Err(Error::SchemaMismatch);
+            }
             let val = val.to_le_bytes();
             out.extend_from_slice(&val);
         }
